@@ -88,7 +88,7 @@ class Report:
             p = os.path.join(rdir, "%s_%s.json" % (self.pid, h))
             with open(p, "w") as f:
                 json.dump({"property": self.pid, "key": v["key"], "what": v["what"], "data": v["data"],
-                           "tier": self.tier, "seed": _seed()}, f, indent=1, default=str)
+                           "tier": self.tier, "seed": _seed(), "python_flags": os.environ.get("VERIF_ENVPASS", "")}, f, indent=1, default=str)
             lines.append("VIOLATION property=%s replay=%s" % (self.pid, p))
             print("  violation: %s: %s" % (v["key"], v["what"]))
         cov = self.cov
@@ -97,12 +97,14 @@ class Report:
         cov["known_findings_seen"] = {k: len(vs) for k, vs in seen_known.items()}
         ev = {"property_id": self.pid, "tier": self.tier, "seed": _seed(), "level": self.level, "coverage": cov,
               "assumptions": self.assumptions, "wall_s": round(time.time() - self.t0, 2), "violations": len(new)}
-        os.makedirs(os.path.join(outbase, "evidence"), exist_ok=True)
-        with open(os.path.join(outbase, "evidence", self.pid + ".json"), "w") as f:
+        evpath = os.environ.get("VERIF_EVIDENCE_FILE") or os.path.join(outbase, "evidence", self.pid + ".json")
+        os.makedirs(os.path.dirname(evpath), exist_ok=True)
+        with open(evpath, "w") as f:
             json.dump(ev, f, indent=1, default=str)
         for l in lines:
             print(l)
-        print("%s %s: states=%d transitions=%d impl_events=%d violations=%d known=%d wall=%.1fs" % (
-            self.pid, self.tier, cov["states"], cov["transitions"], cov["traces_validated_against_impl"],
+        print("%s %s%s: states=%d transitions=%d impl_events=%d violations=%d known=%d wall=%.1fs" % (
+            self.pid, self.tier, (" [second pass: python %s]" % os.environ["VERIF_ENVPASS"]) if os.environ.get("VERIF_ENVPASS") else "",
+            cov["states"], cov["transitions"], cov["traces_validated_against_impl"],
             len(new), len(seen_known), time.time() - self.t0))
         return 1 if new else 0
